@@ -2,6 +2,7 @@ package main
 
 import (
 	"go/ast"
+	"go/token"
 	"strings"
 )
 
@@ -96,6 +97,12 @@ func stubFacts(s *src, f *facts) {
 	inOrder := rng != nil && funcIf != nil && len(appends) == 2
 	if inOrder {
 		els, _ := funcIf.Else.(*ast.BlockStmt)
+		if funcIf.Else == nil {
+			// dedented spelling: `if <func> { …; continue }` directly in the loop body, the former else being the
+			// statements behind it. Only when the branch really ends the iteration (an unlabelled `continue` as its
+			// last own statement); the rest of the loop body then plays the part of the else block.
+			els = tailAfterContinue(rng.Body, funcIf)
+		}
 		inOrder = contains(funcIf.Body, appends[0]) && els != nil && contains(els, appends[1])
 		// each appended value is the marshal result of this iteration
 		for _, a := range appends {
@@ -272,4 +279,27 @@ func stubFacts(s *src, f *facts) {
 		}
 	}
 	f.b("stubOneOutDecodesValueOnlyIfNotError", oneOut, s.pos(resCase))
+}
+
+// tailAfterContinue: for `for … { …; if C { …; continue }; TAIL… }` — ifs one of the loop body's own statements,
+// without else, ending in an unlabelled `continue` — the statements TAIL as a block (they run exactly when C is
+// false, like an else block would); nil otherwise.
+func tailAfterContinue(loopBody *ast.BlockStmt, ifs *ast.IfStmt) *ast.BlockStmt {
+	if loopBody == nil || ifs == nil || ifs.Else != nil || ifs.Body == nil || len(ifs.Body.List) == 0 {
+		return nil
+	}
+	br, ok := ifs.Body.List[len(ifs.Body.List)-1].(*ast.BranchStmt)
+	if !ok || br.Tok != token.CONTINUE || br.Label != nil {
+		return nil
+	}
+	for k, st := range loopBody.List {
+		if st == ast.Stmt(ifs) {
+			tail := loopBody.List[k+1:]
+			if len(tail) == 0 {
+				return nil
+			}
+			return &ast.BlockStmt{Lbrace: tail[0].Pos(), List: tail, Rbrace: tail[len(tail)-1].End()}
+		}
+	}
+	return nil
 }
